@@ -176,6 +176,8 @@ def min_rule(db, ctx):
             new, mn, opn = r, l, SWAP[op]
         else:
             continue
+        if not any(x.get("k") == "Assign" and local_name(x["l"]) == local_name(mn) for x, _ in walk(ifn["then"])):
+            continue  # a comparison with the minimum that does not update it is not the update guard
         found = True
         ok_op = opn in ("Lt", "Le")
         assigned = {}
